@@ -59,6 +59,24 @@ fn chain_oracle(known: &[String], c: &CCase) -> Verdict {
     for op in &built.op_types {
         rep.label(&format!("chain-op:{op}"));
     }
+    for n in &built.model.graph.nodes {
+        if n.op == "Cast" {
+            if let Some((_, vc_onnxgen::model::Attr::Int(to))) = n.attrs.iter().find(|(k, _)| k == "to") {
+                match to {
+                    2 => rep.label("chain:cast-to-uint8"),
+                    3 => rep.label("chain:cast-to-int8"),
+                    9 => rep.label("chain:cast-to-bool"),
+                    _ => {}
+                }
+            }
+        }
+    }
+    if built.inputs.iter().any(|(_, t)| t.shape().iter().any(|d| *d >= 127)) {
+        rep.label("chain:dim>=127");
+    }
+    if built.inputs.iter().any(|(_, t)| t.shape().iter().any(|d| *d >= 256)) {
+        rep.label("chain:dim>=256");
+    }
     verdict(rep, known)
 }
 
